@@ -160,6 +160,10 @@ def reduce_cfgs(k_values, split_everys=(None, 2), batch_blocks=(1, 2), bb2_max_k
 
 def scan_cfgs(k_values, bb2_max_k=3):
     out = []
+    # sorted labels and a NaN that is fillable inside a block (the in-block kernels see already ordered codes)
+    for func in ("nancumsum", "ffill", "bfill"):
+        for one_dim in (False, True):
+            out.append(dict(kind="scan", func=func, labels=[0, 0, 0, 1, 1, 1, 1], chunks=[3, 4], dtype="float64", batch_blocks=1, one_dim=one_dim))
     for k in k_values:
         labels = ([0, 1, 0, 1, NAN, 0, 1, 1, 0, 0, 1, 0])[: k + 2]
         chunks = [2] + [1] * (k - 2) + [2] if k >= 2 else [k + 2]
